@@ -363,7 +363,8 @@ fn run_transport(
     let mut clients_to_remove = Vec::new();
     let mut metadata = HashMap::new();
     let mut next_token = START_TOKEN;
-    let mut buffered_pmsgs = VecDeque::with_capacity(buffer_limit);
+    // Only pre-allocate for a configured limit: "no limit" is `usize::MAX`, which is not an allocation size.
+    let mut buffered_pmsgs = buffer_size.map_or_else(VecDeque::new, VecDeque::with_capacity);
 
     loop {
         let _span = trace_span!("transport");
